@@ -511,13 +511,17 @@ func (r *txRun) admitted(tx *lpb.Transaction) bool {
 // admittedViaBlock packs tx (after the award) into a block signed by the chain's producer on a twin of
 // the node and lets the twin process it like a block received from the network.
 func (r *txRun) admittedViaBlock(tx *lpb.Transaction) bool {
+	return r.admittedViaBlockOpt(tx, false)
+}
+
+func (r *txRun) admittedViaBlockOpt(tx *lpb.Transaction, asAward bool) bool {
 	tw, err := r.n.Twin()
 	if err != nil {
 		panic(err)
 	}
 	defer tw.Drop()
 	time.Sleep(time.Millisecond) // never the award of the instant of an earlier block
-	blk, err := tw.PackBlock(MineOpts{MaxTx: -1, Txs: []*lpb.Transaction{CloneTx(tx)}})
+	blk, err := tw.PackBlock(MineOpts{MaxTx: -1, Txs: []*lpb.Transaction{CloneTx(tx)}, NoAward: asAward})
 	if err != nil {
 		return false
 	}
@@ -585,6 +589,28 @@ func (r *txRun) doUnauthorised(f *TxForm) *Violation {
 			r.rc.St.Probes["unauthorised-spend-tried-through-block"]++
 			if r.admittedViaBlock(m) {
 				return r.viol("unauthorised-spend-admitted", "%s (autogen flag %v) was admitted THROUGH A BLOCK: %s signed by %v", what, auto, descTx(m), sp.AuthRequire)
+			}
+		}
+		// ... and posing as the block's award: flagged coinbase, first output exactly the award, the rest
+		// of the stolen amount behind it, no other award in the block
+		if len(tx.TxInputs) > 0 && len(tx.TxOutputs) > 0 {
+			m := CloneTx(tx)
+			h := n.L.GetMeta().TrunkHeight + 1
+			award := n.L.GenesisBlock.CalcAward(h)
+			tot := new(big.Int)
+			for _, in := range m.TxInputs {
+				tot.Add(tot, new(big.Int).SetBytes(in.Amount))
+			}
+			if tot.Cmp(award) > 0 {
+				to := m.TxOutputs[0].ToAddr
+				m.TxOutputs = []*pb.TxOutput{{ToAddr: to, Amount: award.Bytes()}, {ToAddr: to, Amount: new(big.Int).Sub(tot, award).Bytes()}}
+				m.Coinbase = true
+				m.InitiatorSigns, m.AuthRequireSigns = nil, nil
+				m.Txid, _ = txhash.MakeTransactionID(m)
+				r.rc.St.Probes["unauthorised-spend-tried-as-award"]++
+				if r.admittedViaBlockOpt(m, true) {
+					return r.viol("unauthorised-spend-admitted", "%s, unsigned and posing as the award of the block (coinbase flag, first output = award), was admitted THROUGH A BLOCK: %s", what, descTx(m))
+				}
 			}
 		}
 		return nil
